@@ -416,8 +416,18 @@ fn walk_stmt(s: &asg::Stmt, out: &mut Vec<Found>) {
             out.push(Found { res: d.name().clone(), ty: None });
         }
         asg::Stmt::AnnotatedStmt(a) => walk_stmt(a.statement(), out),
+        asg::Stmt::InputDeclaration(d) => out.push(Found { res: d.name().clone(), ty: None }),
+        asg::Stmt::OutputDeclaration(d) => out.push(Found { res: d.name().clone(), ty: None }),
+        asg::Stmt::Alias(a) => out.push(Found { res: a.name().clone(), ty: None }),
         _ => {}
     }
+}
+
+/// All symbol references of declarations and plain uses in the graph, in source order.
+pub fn walk_symbols(stmts: &[asg::Stmt]) -> Vec<SymbolIdResult> {
+    let mut out = Vec::new();
+    walk_block(stmts, &mut out);
+    out.into_iter().map(|f| f.res).collect()
 }
 
 pub struct ScopeHistories {
